@@ -16,6 +16,8 @@
 #include <kernel/space/lagrange2/element.hpp>
 #include <kernel/space/discontinuous/element.hpp>
 #include <kernel/space/cro_rav_ran_tur/element.hpp>
+#include <kernel/space/lagrange3/element.hpp>
+#include <kernel/space/bernstein2/element.hpp>
 #include <kernel/assembly/symbolic_assembler.hpp>
 #include <kernel/assembly/grid_transfer.hpp>
 #include <kernel/lafem/sparse_matrix_csr.hpp>
@@ -114,13 +116,152 @@ static Geometry::PermutationStrategy strategy_of(const std::string& s)
   throw std::runtime_error("unknown permutation strategy " + s);
 }
 
+// ---------------------------------------------------------------------------------------------------------------
+// ProlExact as a statement about FUNCTIONS (projection, for every family incl. those without exact tables):
+// u_h = sum (P x)_i phi'_i on the fine mesh must equal u_H = sum x_j phi_j pointwise.  The parent of a fine cell and the
+// coarse reference point of a fine sample point are found by this file's own inverse mapping (long double: linear solve on
+// simplices, Newton on the multilinear map), i.e. without CoarseFineCellMapping or Trafo::InverseMapping.
+// ---------------------------------------------------------------------------------------------------------------
+template<class Shape_> struct OwnMap
+{
+  static constexpr int dim = Shape_::dimension;
+  static constexpr int nv = Shape::FaceTraits<Shape_, 0>::count;
+  static void shape_fn(const LD* xi, LD* N, LD (*dN)[3])
+  {
+    if constexpr (Fam<Shape_>::cube)
+    {
+      for(int v(0); v < nv; ++v)
+      {
+        N[v] = 1; for(int a(0); a < dim; ++a) N[v] *= (((v >> a) & 1) ? (1 + xi[a]) : (1 - xi[a])) / 2;
+        for(int a(0); a < dim; ++a)
+        {
+          LD d = (((v >> a) & 1) ? LD(0.5) : LD(-0.5));
+          for(int b(0); b < dim; ++b) if(b != a) d *= (((v >> b) & 1) ? (1 + xi[b]) : (1 - xi[b])) / 2;
+          dN[v][a] = d;
+        }
+      }
+    }
+    else
+    {
+      N[0] = 1; for(int a(0); a < dim; ++a) { N[0] -= xi[a]; N[a + 1] = xi[a]; }
+      for(int v(0); v < nv; ++v) for(int a(0); a < dim; ++a) dN[v][a] = (v == 0 ? LD(-1) : (v == a + 1 ? LD(1) : LD(0)));
+    }
+  }
+  static void map(const MeshT<Shape_>& m, Index c, const LD* xi, LD* x)
+  {
+    LD N[8], dN[8][3]; shape_fn(xi, N, dN);
+    const auto& is = m.template get_index_set<dim, 0>(); const auto& vs = m.get_vertex_set();
+    for(int a(0); a < dim; ++a) { x[a] = 0; for(int v(0); v < nv; ++v) x[a] += N[v] * LD(vs[is[c][v]][a]); }
+  }
+  // returns true and xi if x lies in cell c (tolerance tol on the reference cell)
+  static bool unmap(const MeshT<Shape_>& m, Index c, const LD* x, LD* xi, LD tol)
+  {
+    const auto& is = m.template get_index_set<dim, 0>(); const auto& vs = m.get_vertex_set();
+    for(int a(0); a < dim; ++a) xi[a] = Fam<Shape_>::cube ? LD(0) : LD(1) / LD(dim + 1);
+    for(int it(0); it < 40; ++it)
+    {
+      LD N[8], dN[8][3], F[3] = {0, 0, 0}, J[3][3] = {{0, 0, 0}, {0, 0, 0}, {0, 0, 0}};
+      shape_fn(xi, N, dN);
+      for(int a(0); a < dim; ++a)
+      {
+        for(int v(0); v < nv; ++v) { F[a] += N[v] * LD(vs[is[c][v]][a]); for(int b(0); b < dim; ++b) J[a][b] += dN[v][b] * LD(vs[is[c][v]][a]); }
+        F[a] -= x[a];
+      }
+      // solve J d = F by Gaussian elimination with pivoting
+      LD A[3][4];
+      for(int a(0); a < dim; ++a) { for(int b(0); b < dim; ++b) A[a][b] = J[a][b]; A[a][dim] = F[a]; }
+      for(int k(0); k < dim; ++k)
+      {
+        int pv = k; for(int r(k + 1); r < dim; ++r) if(std::fabs(A[r][k]) > std::fabs(A[pv][k])) pv = r;
+        if(A[pv][k] == 0) return false;
+        if(pv != k) for(int q(0); q <= dim; ++q) std::swap(A[pv][q], A[k][q]);
+        for(int r(k + 1); r < dim; ++r) { LD fct = A[r][k] / A[k][k]; for(int q(k); q <= dim; ++q) A[r][q] -= fct * A[k][q]; }
+      }
+      LD d[3] = {0, 0, 0};
+      for(int k(dim - 1); k >= 0; --k) { LD sx = A[k][dim]; for(int q(k + 1); q < dim; ++q) sx -= A[k][q] * d[q]; d[k] = sx / A[k][k]; }
+      LD nd = 0; for(int a(0); a < dim; ++a) { xi[a] -= d[a]; nd = std::max(nd, std::fabs(d[a])); }
+      if(nd > 100) return false;
+      if(nd < 1e-17L) break;
+    }
+    if constexpr (Fam<Shape_>::cube) { for(int a(0); a < dim; ++a) if(std::fabs(xi[a]) > 1 + tol) return false; }
+    else { LD sx = 0; for(int a(0); a < dim; ++a) { if(xi[a] < -tol) return false; sx += xi[a]; } if(sx > 1 + tol) return false; }
+    return true;
+  }
+};
+
+template<class Space_> struct ValEval
+{
+  typedef typename Space_::TrafoType TrafoType; typedef typename Space_::ShapeType ShapeType;
+  static constexpr int dim = ShapeType::dimension;
+  typedef typename TrafoType::template Evaluator<ShapeType, double>::Type TrafoEval;
+  typedef typename Space_::template Evaluator<TrafoEval>::Type SpaceEval;
+  typedef typename SpaceEval::template ConfigTraits<SpaceTags::value> SCT;
+  typename TrafoEval::template ConfigTraits<SCT::trafo_config | TrafoTags::img_point>::EvalDataType td;
+  typename SCT::EvalDataType sd;
+  TrafoEval te; SpaceEval se; typename Space_::DofMappingType dm; bool prepared = false;
+  explicit ValEval(const Space_& sp) : te(sp.get_trafo()), se(sp), dm(sp) {}
+  void prepare(Index c) { finish(); te.prepare(c); se.prepare(te); dm.prepare(c); prepared = true; }
+  void finish() { if(prepared) { dm.finish(); se.finish(); te.finish(); prepared = false; } }
+  void eval(const LD* xi, const double* coef, double& val, double& mag)
+  {
+    typename TrafoEval::DomainPointType p; for(int a(0); a < dim; ++a) p[a] = double(xi[a]);
+    te(td, p); se(sd, td);
+    val = 0; mag = 0;
+    for(int j(0); j < se.get_num_local_dofs(); ++j) { const double t = coef[dm.get_index(j)] * double(sd.phi[j].value); val += t; mag += std::fabs(t); }
+  }
+};
+
+template<class Shape_, class Space_>
+void function_agreement(const MeshT<Shape_>& cmesh, const MeshT<Shape_>& fmesh, const Space_& cspace, const Space_& fspace,
+  const double* xc, const double* xf, long long& n, long long& bad, long long& orphan, double& worst)
+{
+  constexpr int dim = Shape_::dimension;
+  typedef OwnMap<Shape_> OM;
+  ValEval<Space_> ce(cspace), fe(fspace);
+  n = bad = orphan = 0; worst = 0;
+  // sample points of the fine reference cell (lattice incl. boundary)
+  std::vector<std::array<LD, 3>> pts;
+  for(int q(0); q < (dim == 2 ? 25 : 125); ++q)
+  {
+    int r = q, k[3] = {0, 0, 0}, sm = 0; for(int a(0); a < dim; ++a) { k[a] = r % 5; r /= 5; sm += k[a]; }
+    std::array<LD, 3> p = {0, 0, 0};
+    if(Fam<Shape_>::cube) { for(int a(0); a < dim; ++a) p[std::size_t(a)] = LD(-1) + LD(k[a]) / 2; }
+    else { if(sm > 4) continue; for(int a(0); a < dim; ++a) p[std::size_t(a)] = LD(k[a]) / 4; }
+    pts.push_back(p);
+  }
+  for(Index fc(0); fc < fmesh.get_num_elements(); ++fc)
+  {
+    // parent = the coarse cell containing the barycentre of the fine cell
+    LD bc[3] = {0, 0, 0}, xb[3], xi[3];
+    if(!Fam<Shape_>::cube) for(int a(0); a < dim; ++a) bc[a] = LD(1) / LD(dim + 1);
+    OM::map(fmesh, fc, bc, xb);
+    Index parent = ~Index(0);
+    for(Index cc(0); cc < cmesh.get_num_elements(); ++cc) if(OM::unmap(cmesh, cc, xb, xi, LD(1e-9))) { parent = cc; break; }
+    if(parent == ~Index(0)) { ++orphan; continue; }
+    ce.prepare(parent); fe.prepare(fc);
+    for(const auto& p : pts)
+    {
+      LD x[3], xic[3];
+      OM::map(fmesh, fc, p.data(), x);
+      if(!OM::unmap(cmesh, parent, x, xic, LD(1e-9))) { ++orphan; continue; }
+      double vf, mf, vc, mc;
+      fe.eval(p.data(), xf, vf, mf); ce.eval(xic, xc, vc, mc);
+      const double err = std::fabs(vf - vc);
+      ++n; if(!(err <= 1e-9 * (1.0 + mf + mc))) ++bad;
+      if(err == err) worst = std::max(worst, err); else worst = 1e300;
+    }
+  }
+  ce.finish(); fe.finish();
+}
+
 template<class Shape_, class Space_>
 vj::Value run_transfer(const vj::Value& c, MeshT<Shape_>& cmesh, MeshT<Shape_>& fmesh, int K)
 {
   typedef MeshT<Shape_> MeshType;
   typedef Trafo::Standard::Mapping<MeshType> TrafoType;
   constexpr int dim = Shape_::dimension;
-  const double ps = double(c["ps"].as_int());
+  const bool intmode = c["ps"].as_int() > 0;      // families with exact tables: integer projection at scale ps
+  const double ps = intmode ? double(c["ps"].as_int()) : 1.0;
   const std::string cub = c.get_str("cub", "auto-degree:5");
   const bool want_trunc = c.get_int("trunc", 1) != 0;
 
@@ -171,6 +312,19 @@ vj::Value run_transfer(const vj::Value& c, MeshT<Shape_>& cmesh, MeshT<Shape_>& 
   pxv.format();
   Assembly::GridTransfer::prolongate_vector_direct(pxv, x, fspace, cspace, cub);
 
+  // function-level agreement (projection)
+  long long fn_n = 0, fn_bad = 0, fn_orphan = 0; double fn_worst = 0;
+  function_agreement<Shape_, Space_>(cmesh, fmesh, cspace, fspace, x.elements(), pxt.elements(), fn_n, fn_bad, fn_orphan, fn_worst);
+  // float-level agreement of the operators (for the families without integer projection)
+  double vdev = 0, tpdev = 0, rdev = 0;
+  for(Index i(0); i < ngf; ++i) vdev = std::max(vdev, std::fabs(pxv(i) - pxt(i)));
+  {
+    // R y against P^T y accumulated from P
+    std::vector<double> pty(ngc, 0.0), mag(ngc, 0.0);
+    for(Index i(0); i < P.rows(); ++i) for(Index k(P.row_ptr()[i]); k < P.row_ptr()[i + 1]; ++k) { pty[P.col_ind()[k]] += P.val()[k] * y(i); mag[P.col_ind()[k]] += std::fabs(P.val()[k] * y(i)); }
+    for(Index j(0); j < ngc; ++j) rdev = std::max(rdev, std::fabs(ry(j) - pty[j]) / (1.0 + mag[j]));
+  }
+
   // ---- dump ----
   const std::string out = c["out"].as_str();
   FILE* f = std::fopen(out.c_str(), "w");
@@ -186,10 +340,23 @@ vj::Value run_transfer(const vj::Value& c, MeshT<Shape_>& cmesh, MeshT<Shape_>& 
   put_dofmap(f, cspace);
   std::fputs(",\"gf\":", f); put_dofmap(f, fspace);
   Proj pp, pr, pt, pv, pxt_, pry, pxx;
-  std::fputs(",\"P\":", f); put_rows(f, P, ps, pp);
-  std::fputs(",\"R\":", f); put_rows(f, R, ps, pr);
+  if(intmode)
+  {
+    std::fputs(",\"P\":", f); put_rows(f, P, ps, pp);
+    std::fputs(",\"R\":", f); put_rows(f, R, ps, pr);
+  }
+  else std::fputs(",\"P\":[],\"R\":[]", f);
   std::fputs(",\"TP\":", f);
-  if(want_trunc) { MatrixType TP = mat_mat(T, P); put_rows(f, TP, 1.0, pt); } else std::fputs("[]", f);
+  if(want_trunc)
+  {
+    MatrixType TP = mat_mat(T, P); put_rows(f, TP, 1.0, pt);
+    for(Index i(0); i < TP.rows(); ++i) for(Index k(TP.row_ptr()[i]); k < TP.row_ptr()[i + 1]; ++k)
+      tpdev = std::max(tpdev, std::fabs(TP.val()[k] - (TP.col_ind()[k] == i ? 1.0 : 0.0)));
+  }
+  else std::fputs("[]", f);
+  std::fprintf(f, ",\"intmode\":%s,\"fn\":{\"n\":%lld,\"bad\":%lld,\"orphan\":%lld,\"worst\":%.3e},\"vdev_ok\":%s,\"rdev_ok\":%s,\"nnz\":%llu",
+    intmode ? "true" : "false", fn_n, fn_bad, fn_orphan, fn_worst, vdev <= 1e-9 * (1.0 + 4.0 * 30.0) ? "true" : "false", rdev <= 1e-10 ? "true" : "false",
+    (unsigned long long)P.used_elements());
   std::fputs(",\"x\":", f); put_vec(f, x, 1.0, pxx);
   std::fputs(",\"y\":", f); put_vec(f, y, 1.0, pxx);
   std::fputs(",\"pxt\":", f); put_vec(f, pxt, ps, pxt_);
@@ -200,7 +367,7 @@ vj::Value run_transfer(const vj::Value& c, MeshT<Shape_>& cmesh, MeshT<Shape_>& 
   std::fclose(f);
   if(!exact) return vh::bad("a mesh coordinate left the integer domain at scale 2^K");
   vj::Value r = vh::ok();
-  r["dev_p"] = pp.worst; r["dev_tp"] = pt.worst; r["dev_v"] = pv.worst; r["ngf"] = (long long)ngf; r["nnz"] = (long long)P.used_elements();
+  r["dev_p"] = pp.worst; r["dev_tp"] = pt.worst; r["dev_v"] = pv.worst; r["dev_fn"] = fn_worst; r["vdev"] = vdev; r["rdev"] = rdev; r["ngf"] = (long long)ngf; r["nnz"] = (long long)P.used_elements();
   return r;
 }
 
@@ -242,11 +409,13 @@ template<class Shape_> vj::Value run_shape(const vj::Value& c)
     fmesh->create_permutation(strategy_of(perm));
   }
   int K = std::max(min_scale(*cmesh, 30), min_scale(*fmesh, 30));
-  if(K < 0) return vh::bad("mesh coordinates are not dyadic");
+  if(K < 0) { vj::Value r = vh::ok(); r["skip"] = true; r["why"] = "mesh coordinates are not dyadic (outside the exact domain)"; return r; }
 
   const std::string el = c["el"].as_str();
   if(el == "lagrange1") return run_transfer<Shape_, Space::Lagrange1::Element<TrafoType>>(c, *cmesh, *fmesh, K);
   if(el == "lagrange2") return run_transfer<Shape_, Space::Lagrange2::Element<TrafoType>>(c, *cmesh, *fmesh, K);
+  if(el == "lagrange3") return run_transfer<Shape_, Space::Lagrange3::Element<TrafoType>>(c, *cmesh, *fmesh, K);
+  if constexpr (Fam<Shape_>::cube) { if(el == "bernstein2") return run_transfer<Shape_, Space::Bernstein2::Element<TrafoType>>(c, *cmesh, *fmesh, K); }
   if(el == "discontinuous0") return run_transfer<Shape_, Space::Discontinuous::Element<TrafoType, Space::Discontinuous::Variant::StdPolyP<0>>>(c, *cmesh, *fmesh, K);
   if constexpr (!Fam<Shape_>::cube)
   {
